@@ -213,6 +213,36 @@ def check_recoverable(pre, crashed_root, post, label):
         elif x.exit not in ((0, 30) if cmd == "info" else (0, 10, 11, 21, 30)):
             # "loads the history normally": the only acceptable outcomes are the command's own verdicts on the tree
             probs.append(f"{label}: {cmd} ends with exit {x.exit}, which is none of its verdicts on a loadable history")
+    # the interrupted generation is completely present or absent: what `info` shows as generations is what the chain
+    # lists (a manifest without chain entry is not protected by anything and must not count as a generation)
+    try:
+        x = rt.run("info", [crashed_root], "2026-03-01 12:10:01")
+        if x.exc is None and x.exit == 0:
+            import re as _re
+            shown = [int(n) for n in _re.findall(r"^\s+Generation (\d+) \(", x.out.split("Child History at")[0], _re.M)]
+            rootkey = [a for a in cur if os.path.dirname(a) in ("", ".")]
+            ch = cur[rootkey[0]]["chain"] if rootkey else None
+            if isinstance(ch, list):
+                listed = [int(e["seq"]) for e in ch]
+                if shown != listed:
+                    probs.append(f"{label}: info shows generations {shown} of the root history, its chain file lists {listed}: the interrupted generation is neither completely present nor absent")
+    except Exception as e:  # the probe itself must not decide anything
+        pass
+    # ... and the next create works and leaves a gap-free chain
+    x = rt.run("create", [crashed_root, "-h", "md5"], "2026-03-01 12:10:02")
+    if x.exc is not None:
+        probs.append(f"{label}: the next create aborts with {x.exc}")
+    elif x.exit in (31, 32, 33):
+        zero = [a for a, st in cur.items() if (pre.get(a) is None or not pre[a]["manifests"])]
+        probs.append(f"{label}: create refuses with {x.exit}" + (" [zero-prior-generation history: %s]" % ",".join(zero) if zero else ""))
+    elif x.exit not in (0, 10, 11):
+        probs.append(f"{label}: the next create ends with exit {x.exit}")
+    else:
+        for a, st in committed_state(crashed_root).items():
+            if isinstance(st["chain"], list):
+                seqs = [int(e["seq"]) for e in st["chain"]]
+                if seqs != list(range(1, len(seqs) + 1)):
+                    probs.append(f"{label}: after the next create the chain of {a} lists sequence numbers {seqs}")
     # the interrupted generation is all or nothing
     for a, st in cur.items():
         for name, b in st["manifests"].items():
